@@ -123,8 +123,8 @@ func idemMain(s *simrt.Sim, info *harness.RunInfo) {
 	useSim := faults || s.Chance(500)
 	lifetime := simrt.PickS(s, 30*time.Minute, 3*time.Second, 6*time.Second)
 	keepMode := s.Draw(3) // 0 all, 1 subset incl. multi, 2 subset without single
-	nkeys := s.Range(1, 3)
-	nclients := s.Range(2, 6)
+	nkeys := s.Range(1, harness.Scale(3, 4))
+	nclients := s.Range(2, harness.Scale(6, 9))
 	preempt := simrt.PickS(s, 150, 0, 50, 400)
 	failPermille := simrt.PickS(s, 150, 0, 500)
 	dense := s.Chance(400) // requests packed into the first seconds, handlers never instantaneous
@@ -217,7 +217,7 @@ func idemMain(s *simrt.Sim, info *harness.RunInfo) {
 	}
 	plans := make([]plan, nclients)
 	for ci := range plans {
-		n := s.Range(1, 4)
+		n := s.Range(1, harness.Scale(4, 7))
 		for j := 0; j < n; j++ {
 			op := &idemOp{id: len(ops), client: ci, method: "POST", key: keyName(s.Draw(nkeys)), status: simrt.PickS(s, 200, 201, 202)}
 			if s.Chance(120) {
